@@ -5,12 +5,16 @@ EXTENDS PageCache, TraceIO, Known_PageCache
 
 VARIABLES l, subj, kf
 
-vars == <<files, since, rec, l, subj, kf>>
+vars == <<files, since, rec, bufs, l, subj, kf>>
 
 TraceInit == PcInit /\ l = 1 /\ subj = [subject |-> "none"] /\ kf = {}
 
 PcStep(e) ==
-    \/ e.op = "file" /\ e.ok /\ NewFile(e.f, e.size, e.gen)
+    \/ e.op = "file" /\ e.ok /\ NewFile(e.f, e.size, e.gen, e.fid)
+    \/ e.op = "file" /\ ~e.ok /\ e.virtual /\ NoEffect        \* register_file refused (a real descriptor): allowed
+    \/ e.op = "read_far" /\ e.ok /\ ReadFar(e.f, e.offl, e.r)
+    \/ e.op = "read_far" /\ ~e.ok /\ ReadRefused
+    \/ e.op = "invalidate_far" /\ NoEffect
     \/ e.op = "rewrite" /\ Rewrite(e.f, e.a, e.b, e.gen)
     \/ e.op = "read" /\ e.ok /\ Read(e.f, e.off, e.len, e.r)
     \/ e.op = "read" /\ ~e.ok /\ ReadRefused
@@ -29,17 +33,30 @@ CsStep(e) ==
     \/ e.op = "get" /\ CsGet(e.id, e.ok, e.r, e.iok, e.ir)
     \/ e.op = "remove" /\ e.ok /\ CsRemove(e.id)
     \/ e.op = "remove" /\ ~e.ok /\ NoEffect
-    \/ e.op \in {"size", "contains", "len"} /\ CsSame(e.r, e.ir)
+    \/ e.op \in {"size", "contains", "len", "is_empty"} /\ CsSame(e.r, e.ir)
     \/ e.op \in {"flush", "prefetch_range"} /\ NoEffect
+    \/ e.op = "set_write_strategy" /\ CsSame(e.r, e.want)       \* write_strategy() reports what was set
 
-Step(e) == IF subj.domain = "cstore" THEN CsStep(e) ELSE PcStep(e)
+BufStep(e) ==
+    /\ \/ e.op = "buf_new" /\ BufNew(e.b)
+       \/ e.op = "buf_from_data" /\ BufFromData(e.b, e.d)
+       \/ e.op = "buf_copy" /\ BufCopy(e.b, e.d)
+       \/ e.op = "buf_extend" /\ BufExtend(e.b, e.d)
+       \/ e.op = "buf_clear" /\ BufClear(e.b)
+       \/ e.op \in {"buf_reserve", "buf_move"} /\ BufKeep(e.b)
+    /\ BufObs(e.b, e.data, e.len, e.empty, e.has)
+
+Step(e) ==
+    IF subj.domain = "cstore" THEN CsStep(e)
+    ELSE IF subj.domain = "buffer" THEN (BufStep(e) \/ (e.op \in {"pool_put", "buf_drop"} /\ BufDrop(e.b)))
+    ELSE PcStep(e)
 
 TraceNext ==
     /\ l <= Len(Rec)
     /\ l' = l + 1
     /\ LET e == Rec[l] IN
        IF e.op = "reset"
-       THEN /\ files' = [x \in {} |-> 0] /\ since' = [x \in {} |-> 0] /\ rec' = [x \in {} |-> 0]
+       THEN /\ files' = [x \in {} |-> 0] /\ since' = [x \in {} |-> 0] /\ rec' = [x \in {} |-> 0] /\ bufs' = [x \in {} |-> 0]
             /\ e.domain = "pagecache" => e.page = PageSize
             /\ subj' = e /\ kf' = kf
        ELSE /\ subj' = subj
